@@ -175,7 +175,7 @@ func (g *GoBackNConn) Send(data []byte) error {
 		sentBytes = 0
 		maxChunk  = g.cfg.maxChunkSize
 	)
-	for sentBytes < len(data) {
+	for {
 		packet := &PacketData{}
 
 		remainingBytes := len(data) - sentBytes
@@ -191,9 +191,12 @@ func (g *GoBackNConn) Send(data []byte) error {
 		if err := sendPacket(packet); err != nil {
 			return err
 		}
-	}
 
-	return nil
+		// Every message ends with a final chunk, also an empty one.
+		if packet.FinalChunk {
+			return nil
+		}
+	}
 }
 
 // Recv blocks until it gets a recv with the correct sequence it was expecting.
